@@ -23,6 +23,7 @@ import (
 	"golang.org/x/sync/errgroup"
 
 	"github.com/facebookincubator/dns/dnsrocks/dnsdata"
+	"github.com/facebookincubator/dns/dnsrocks/verifhook"
 )
 
 // CleanRDBDir removes all files from the directory - for instance, to clean up output directory before compilation
@@ -148,8 +149,11 @@ func compileBatches(in io.Reader, codec *dnsdata.Codec, destPath string, opts Co
 				counter = 0
 				log.Println(nw)
 				b := rdbBatch
+				verifhook.Yield("compile.batch.full")
 				limiter <- struct{}{}
 				g.Go(func() error {
+					verifhook.Enter("compile.batch.writer")
+					defer verifhook.Exit()
 					if err := db.ExecuteBatch(b); err != nil {
 						<-limiter
 						return fmt.Errorf("error executing batch: %w", err)
